@@ -355,7 +355,7 @@ def handle (j : Json) : R Json := do
     let steps ← (← fldArr j "steps").mapM (fun s => do
       return (mkEnv t (← parseDrv (← fld s "drv")), ← parseReq (← fld s "req")))
     return Json.mkObj [("outs", jarr ((runSteps n steps).map outJson)), ("before", cacheJson (cache n)),
-      ("chains", chainsJson n)]
+      ("chains", chainsJson n), ("wf", Json.bool (wfB predef n))]
   | "judge" =>
     -- every recorded exchange of the implementation against the specification, on the implementation's own cache
     let t ← parseTables (← fld j "oracle")
